@@ -47,10 +47,19 @@ def probe_source(dnames, dpn):
 def level_cond(cond):
     """(op, const) if cond compares libast_debug_level with a constant, else None."""
     c = X.strip(cond)
-    if c.get("k") == "bin" and c.get("op") in (">=", ">", "<", "<=", "==", "!="):
+    neg = False
+    while c is not None and c.get("k") == "un" and c.get("op") == "!":      # !(level < 1) is level >= 1
+        neg = not neg
+        c = X.strip(c["ch"][0])
+    if c is not None and c.get("k") == "bin" and c.get("op") in (">=", ">", "<", "<=", "==", "!="):
         a, b = X.strip(c["ch"][0]), X.strip(c["ch"][1])
+        inv = {">=": "<", ">": "<=", "<": ">=", "<=": ">", "==": "!=", "!=": "=="}
+        flip = {">=": "<=", ">": "<", "<": ">", "<=": ">=", "==": "==", "!=": "!="}
         if a.get("k") == "ref" and a.get("n") == "libast_debug_level" and X.const_val(c["ch"][1]) is not None:
-            return c["op"], X.const_val(c["ch"][1])
+            return (inv[c["op"]] if neg else c["op"]), X.const_val(c["ch"][1])
+        if b.get("k") == "ref" and b.get("n") == "libast_debug_level" and X.const_val(c["ch"][0]) is not None:      # 1 <= level
+            op = flip[c["op"]]
+            return (inv[op] if neg else op), X.const_val(c["ch"][0])
     return None
 
 
